@@ -45,4 +45,54 @@ theorem dropping_loses_the_head :
       ["first\n".toList, "hello world\n".toList] := by
   constructor <;> decide
 
+/-! ### a view into the reader's buffer is not a record
+
+`ReadSlice` returns a slice OF the reader's internal buffer, valid until the next read. Two independent "save a copy"
+rewrites kept the first fragment of a long record (the whole buffer, returned with `ErrBufferFull`), read the rest with
+`ReadBytes` — which refills that very buffer — and only then copied the fragment (`append(frag, rest...)`). A pure
+function cannot alias; the model below makes the buffer explicit: a view is an offset and a length, and it is READ when
+it is copied. -/
+
+/-- the reader: its buffer (capacity = its length) and the bytes of the stream not yet read -/
+structure Rd where
+  buf : Str
+  todo : Str
+  deriving Repr
+
+/-- `fill` on an empty buffer: the next bytes of the stream overwrite the buffer from its start (what lies beyond
+them stays as it was) -/
+def Rd.fill (r : Rd) : Rd × Nat :=
+  let k := min r.buf.length r.todo.length
+  ({ buf := r.todo.take k ++ r.buf.drop k, todo := r.todo.drop k }, k)
+
+/-- `ReadBytes(d)` after a full buffer: refill, COPY each fragment, until the delimiter (fuel: the stream's length) -/
+def Rd.readBytes (d : Char) : Nat → Rd → Str → Rd × Str
+  | 0, r, acc => (r, acc)
+  | fuel + 1, r, acc =>
+    let (r', k) := r.fill
+    let got := r'.buf.take k
+    match got.idxOf? d with
+    | some i => ({ r' with todo := got.drop (i + 1) ++ r'.todo }, acc ++ got.take (i + 1))   -- (the unread tail goes back: it is still buffered)
+    | none => if k = 0 then (r', acc ++ got) else Rd.readBytes d fuel r' (acc ++ got)
+
+/-- a record longer than the buffer, read the way of the rewrite: the first fragment is a VIEW (offset 0, the whole
+buffer), the rest is read, and then the view is copied in front of it -/
+def recordByView (cap : Nat) (stream : Str) (d : Char) : Str :=
+  let r0 : Rd := (({ buf := List.replicate cap ' ', todo := stream } : Rd).fill).1   -- ReadSlice filled the buffer: no delimiter in it
+  let (r1, rest) := Rd.readBytes d stream.length r0 []
+  r1.buf.take cap ++ rest        -- append(frag, rest...): the view is read NOW
+
+/-- … and the way of `ReadString`: the fragment is copied when it is returned -/
+def recordByCopy (cap : Nat) (stream : Str) (d : Char) : Str :=
+  let r0 : Rd := (({ buf := List.replicate cap ' ', todo := stream } : Rd).fill).1
+  let frag := r0.buf.take cap
+  let (_, rest) := Rd.readBytes d stream.length r0 []
+  frag ++ rest
+
+/-- same length, same tail, wrong head: the record's first bytes have become bytes of its own end -/
+theorem view_is_overwritten :
+    recordByView 4 "abcdefghij\nnext".toList '\n' = "ij\nnefghij\n".toList ∧
+    recordByCopy 4 "abcdefghij\nnext".toList '\n' = "abcdefghij\n".toList := by
+  constructor <;> decide
+
 end AM.C12V
